@@ -3,8 +3,8 @@
 # of /repo's HEAD outside /repo and /verif, apply the change there, run the property's own quick check against that copy
 # (VERIF_REPO) and report whether it raises a VIOLATION (and whether with a concrete input).  /repo is never touched.
 # Different properties run in parallel (4 at a time); the scratch copies are removed as soon as a run is over.
-# Output: /verif/.cache/regress/<seed>.log and a summary on stdout.  The evidence files are overwritten by these runs:
-# run bin/runall afterwards.
+# Output: /verif/.cache/regress/<seed>.log and a summary on stdout.  Runs with VERIF_REPO set write their evidence under
+# .cache/evidence-other-tree (core.evidence_dir): /verif/evidence is written by runs against /repo only.
 cd /verif
 mkdir -p .cache/regress
 sel="$*"
